@@ -205,10 +205,10 @@ PROPS["C13"] = {
     "level": "model_checking",
     "harness": ["C13_"],
     "tiers": {
-        "quick": {"timeout": "20s", "maxsteps": 12000000, "bounds": "all 64 import graphs on 2 source modules + main (edges are finite choices); 9 hand-picked larger graphs (chains, deep diamonds, cycles not through the first module); 13 isolation/immutability/freshness cases with a symbolic input; 29 export expression forms (literals, identifiers, + on arrays, || && ?: yielding containers, slices, calls, copy/append/splice results, nested imports) that must arrive immutable; all ordered pairs of 11 module-map names (several equal after path cleaning), each with its own export; 12 import names (plain, path-like, module-map names) x 3 configurations with file import disabled", "cross": 2},
+        "quick": {"timeout": "20s", "maxsteps": 12000000, "bounds": "all 64 import graphs on 2 source modules + main (edges are finite choices); 9 hand-picked larger graphs (chains, deep diamonds, cycles not through the first module); 13 isolation/immutability/freshness cases with a symbolic input; 29 export expression forms (literals, identifiers, + on arrays, || && ?: yielding containers, slices, calls, copy/append/splice results, nested imports) that must arrive immutable; all ordered pairs of 11 module-map names (several equal after path cleaning), each with its own export; 12 import names (plain, path-like, module-map names) x 3 configurations with file import disabled; file import: up to 3 further configuration calls from {SetImportDir, EnableFileImport(false), SetImports(map), SetImports(empty)} in every order; two embedder-supplied object modules of 3 shapes with symbolic payloads imported in 5 arrangements (directly, twice, through a source module)", "cross": 2},
         "thorough": {"timeout": "60s", "maxsteps": 12000000, "bounds": "all 4096 import graphs on 3 source modules + main; rest as quick", "cross": 3},
     },
-    "reach": {"C13_Shapes": ["shape-cycle", "shape-acyclic"], "C13_Graphs": ["cycle", "acyclic"], "C13_Isolation": ["iso-ok", "iso-compile-error", "iso-run-error"], "C13_NoFileSystem": ["nofs"], "C13_ExportImmutable": ["export-immutable"], "C13_Names": ["names"]},
+    "reach": {"C13_ObjectModules": ["objmods"], "C13_Shapes": ["shape-cycle", "shape-acyclic"], "C13_Graphs": ["cycle", "acyclic"], "C13_Isolation": ["iso-ok", "iso-compile-error", "iso-run-error"], "C13_NoFileSystem": ["nofs"], "C13_ExportImmutable": ["export-immutable"], "C13_Names": ["names"]},
     "assumptions": ["the graph family has no wide variable: it is an exhaustive case split of the edge set (stated in DESIGN.md); 'never consults the file system' = no path reaches an os/io/ioutil/filepath entry point, all of which the engine traps",
                     "'compiled once' is observed as the number of distinct module functions in the constant pool after de-duplication"],
     "outside": "larger graphs; file import enabled (real files)",
